@@ -331,6 +331,15 @@ class Run:
                     # stored text again, cannot represent as the cells it was written as
                     self.known_hits["KF-grapheme-merge"] += 1
                     continue
+                if lasting and (m["ops"][tainted_from][0][3] & 16) and (text.startswith("C11 ANSILine round trip") or
+                                                                         text.startswith("C10 StyledLine") or
+                                                                         text.startswith("C10 shadow copy differs")):
+                    # a row holds text that segments, when read whole, into other cells than it was written as (model mark
+                    # 16): its rendering cannot be read back cell by cell.  C11: known finding KF-C11-grapheme-pieces.
+                    # C10: the harness's cell-level copy is not comparable there (the property lets a frontend keep what
+                    # StyledLine returns, which it still gets exactly) - counted, not a finding.
+                    self.known_hits["KF-C11-grapheme-pieces" if text.startswith("C11") else "C10-shadow-not-comparable"] += 1
+                    continue
                 if is_span and lasting:
                     # the row is known to be malformed from here on (D12 glyph wider than the screen, D13 raw invalid bytes)
                     self.known_hits["P:" + text.split(" ")[0]] += 1
